@@ -12,8 +12,8 @@ COQ_PROPERTY_FILE = "Properties/C16.v"
 COQ_DEPS = ["Common/ListX.v", "Common/ObsHash.v", "Generated/Tables.v", "Model/Signals.v", "Proofs/SignalsProofs.v",
             "Proofs/SignalsBridge.v"]
 COQ_IMPORTS = "From Mesa Require Import Generated.Tables Model.Signals."
-COQ_CASE_TYPE = "anycase"
-COQ_RUN = "run_any"
+COQ_CASE_TYPE = "anycase2"
+COQ_RUN = "run_any2"
 TABLE_CONSTRUCTS = ["sig_tables", "dg_shadowing", "sig_observe_code", "sig_unobserve_code", "sig_clear_code",
                     "sig_mesa_notify_code", "sl_setitem_code", "sl_delitem_code", "sl_insert_code", "sl_append_code",
                     "signals_glue", "ms_pop_code", "ms_pop_default", "ms_remove_code", "ms_extend_code", "ms_iadd_code",
@@ -314,8 +314,23 @@ def _gen_reentrant(rng):
             "ops": [["round"] for _ in range(rng.randint(2, 4))]}
 
 
+def _gen_reentrant_assign(rng):
+    """as _gen_reentrant, and one or two handlers assign to the observable when they see a given new value
+    (trigger = the value of some round, assigned value >= 100 so that the nested round triggers nothing)"""
+    c = _gen_reentrant(rng)
+    n = len(c["ops"])
+    hs = sorted({h for h in c["re"]["subs"]} | {x[0] for x in c["re"]["script"]} | {x[2] for x in c["re"]["script"]})
+    script = {h: [a, t] for h, a, t in c["re"]["script"]}
+    for h in rng.sample(hs, min(len(hs), rng.randint(1, 2))):
+        script[h] = ["assign", rng.randint(1, n), 100 + h]
+    c["re"]["script"] = [[h] + v for h, v in sorted(script.items())]
+    c["re"]["assign"] = True
+    return c
+
+
 def gen_cases(rng, tier):
     cases = [_gen_reentrant(rng) for _ in range(40 if tier == "quick" else 400)]
+    cases += [_gen_reentrant_assign(rng) for _ in range(40 if tier == "quick" else 400)]
     # the corner cases the quantifier names, always: All in either position on mixed classes, both declaration orders
     for order in (("obs", "list"), ("list", "obs")):
         for where in (("sub", "sub"), ("base", "sub"), ("sub", "base")):
@@ -622,14 +637,21 @@ def _run_reentrant(case):
     obj = R()
     obj.x = 0
     calls, handlers = [], {}
-    script = {h: (a, t) for h, a, t in case["re"]["script"]}
-    ids = set(case["re"]["subs"]) | set(script) | {t for _, t in script.values()}
+    with_assign = bool(case["re"].get("assign"))
+    script = {x[0]: tuple(x[1:]) for x in case["re"]["script"]}
+    ids = set(case["re"]["subs"]) | set(script) | {v[1] for v in script.values() if v[0] in ("obs", "unobs")}
 
     def mk(h):
         def f(signal):
-            calls.append(h)
-            a, t = script.get(h, ("nop", 0))
-            if a == "obs":
+            if with_assign:
+                calls.extend([h, signal.old, signal.new])
+            else:
+                calls.append(h)
+            a, t = script.get(h, ("nop", 0))[:2]
+            if a == "assign":
+                if signal.new == t:
+                    obj.x = script[h][2]
+            elif a == "obs":
                 obj.observe("x", "change", handlers[t])
             elif a == "unobs":
                 obj.unobserve("x", "change", handlers[t])
@@ -647,7 +669,7 @@ def _run_reentrant(case):
             break
         obj.x = i + 1
         reg = [r()._hid for r in obj.subscribers["x"]["change"] if r() is not None]
-        obs.append(list(calls) + [-7] + reg)
+        obs.append(list(calls) + [-7] + reg + ([-6, obj._x] if with_assign else []))
     return {"obs": obs, "failures": []}
 
 
@@ -1113,11 +1135,20 @@ def _haction(a, t):
 
 
 def coq_case(case):
+    if "re" in case and case["re"].get("assign"):
+        def act(x):
+            if x[1] == "assign":
+                return f"AAssignIf {L.z(x[2])} {L.z(x[3])}"
+            return {"obs": f"AObserve {L.z(x[2])}", "unobs": f"AUnobserve {L.z(x[2])}"}.get(x[1], "ANop")
+        sc = L.lst([L.pair(L.z(x[0]), act(x)) for x in case["re"]["script"]])
+        vals = L.zlist(list(range(1, len(case["ops"]) + 1)))
+        return (f"ReentrantAssign {{| rc2_subs := {L.zlist(case['re']['subs'])}; rc2_script := {sc}; rc2_init := 0; "
+                f"rc2_values := {vals} |}}")
     if "re" in case:
         sc = L.lst([L.pair(L.z(h), _haction(a, t)) for h, a, t in case["re"]["script"]])
-        return (f"Reentrant {{| rc_subs := {L.zlist(case['re']['subs'])}; rc_script := {sc}; "
+        return (f"Reentrant2 {{| rc_subs := {L.zlist(case['re']['subs'])}; rc_script := {sc}; "
                 f"rc_rounds := {len(case['ops'])} |}}")
-    return "Plain " + _coq_plain(case)
+    return "Plain2 " + _coq_plain(case)
 
 
 def _coq_plain(case):
@@ -1150,7 +1181,7 @@ def _coq_plain(case):
 
 def op_kinds(case):
     if "re" in case:
-        return ["reentrant-round"] * len(case["ops"])
+        return ["reentrant-assign-round" if case["re"].get("assign") else "reentrant-round"] * len(case["ops"])
     out = []
     for op in case["ops"]:
         if op[0] == "lop":
